@@ -143,6 +143,12 @@ def snapshot(comp):
 def impl_trace(case):
     na, nd, ns, mx, reqs = case['na'], case['nd'], case['ns'], tuple(case['mx']), case['reqs']
     comp = make_component(na, nd, ns, mx)
+    if case.get('prefix_then_clear'):
+        # reuse after clear(): a previous history on the same object must leave no trace
+        for r in case['prefix_then_clear']:
+            comp.activate_index(tuple(r[:na]), tuple(r[na:]))
+        comp.clear()
+        comp.training_data.clear()
     snaps = []
     for r in reqs:
         try:
@@ -255,7 +261,11 @@ def gen_cases(ctx: Ctx):
         # keep grid sizes small: data dims limited to level 2
         mx = tuple(min(m, 2) if na <= k < na + nd else m for k, m in enumerate(mx))
         reqs = random_history(rng, mx, rng.randint(1, ctx.pick(14, 24)))
-        cases.append({'na': na, 'nd': nd, 'ns': ns, 'mx': list(mx), 'reqs': [list(r) for r in reqs], 'kind': 'random'})
+        c = {'na': na, 'nd': nd, 'ns': ns, 'mx': list(mx), 'reqs': [list(r) for r in reqs], 'kind': 'random'}
+        if rng.random() < 0.25:
+            c['prefix_then_clear'] = [list(r) for r in random_history(rng, mx, rng.randint(1, 6), p_bad=0.0)]
+            c['kind'] = 'random-after-clear'
+        cases.append(c)
     return cases, n_exh
 
 
@@ -301,7 +311,7 @@ def run(ctx: Ctx, which: str):
             for e in errs:
                 ctx.violate(f'{which}:{e.split(":")[0][:40]}', e, {**c, 'after_request': k})
             prev = snap
-        ctx.case({k: c[k] for k in ('na', 'nd', 'ns', 'mx', 'reqs')}, nontrivial=nacc >= 2, kind=c['kind'])
+        ctx.case({k: c[k] for k in ('na', 'nd', 'ns', 'mx', 'reqs', 'prefix_then_clear') if k in c}, nontrivial=nacc >= 2, kind=c['kind'])
         ctx.count(f'dims={len(mx)}')
         ctx.count('requests', len(c['reqs'])); ctx.count('accepted', nacc)
         if snaps and 'raised' in snaps[-1]:
